@@ -55,7 +55,7 @@ def band_of(b, scale=1.0):
     return b["lo2"] / 2.0 * scale, (np.inf if b["hi2"] == INF2 else b["hi2"] / 2.0 * scale)
 
 
-def build(batch, layout, kind, scale=1.0, moments=None, depth=None):
+def build(batch, layout, kind, scale=1.0, moments=None, depth=None, escale=1.0):
     """Build a spectrum holding the batch (list of emitted lines with the same grid).
     layout: 'scalar' (dims ()), 'time', 'time_lat' (time x latitude), 'flat' (flattened time_lat)
     kind: '1d' | '2d'.  moments: optional function j -> (a1,b1,a2,b2) per frequency index.
@@ -65,7 +65,8 @@ def build(batch, layout, kind, scale=1.0, moments=None, depth=None):
     f = np.array(batch[0]["f"], dtype="float64") * scale
     nf = len(f)
     B = len(batch)
-    E = np.array([[np.nan if c["nan"][j] else float(c["e"][j]) for j in range(nf)] for c in batch])
+    # escale: a power of two (exact) by which every variance density is multiplied - peak selection must not depend on the level
+    E = np.array([[np.nan if c["nan"][j] else float(c["e"][j]) * escale for j in range(nf)] for c in batch])
     if moments is None:
         moments = lambda j: (0.0, 0.0, 0.0, 0.0)   # noqa
     mom = np.array([moments(j) for j in range(nf)])  # nf x 4
@@ -104,6 +105,15 @@ def build(batch, layout, kind, scale=1.0, moments=None, depth=None):
         a2 = np.broadcast_to(mom[:, 2], shp).copy()
         b2 = np.broadcast_to(mom[:, 3], shp).copy()
         s = create_1d_spectrum(f, Efull, time, lat, lon, a1=a1, b1=b1, a2=a2, b2=b2, depth=dep, dims=dims)
+    elif kind == "2dnu":
+        # non-uniform direction grid; the energy of frequency j sits in ONE bin, (j mod 4), whose width differs from bin to bin:
+        # e(f) = D * (that bin's width), so an unweighted sum over direction orders the frequencies differently from e(f)
+        dnu = np.array([0.0, 45.0, 180.0, 270.0])
+        D = np.zeros(Efull.shape + (4,))
+        steps = create_2d_spectrum(f, dnu, D, time, lat, lon, dims=dims + ("direction",), depth=dep).direction_step.values
+        for j in range(nf):
+            D[..., j, j % 4] = Efull[..., j] / steps[j % 4]
+        s = create_2d_spectrum(f, dnu, D, time, lat, lon, dims=dims + ("direction",), depth=dep)
     else:
         # all energy of a frequency in one direction bin (bin width 90 deg): e(f) = D * 90
         D = np.zeros(Efull.shape + (4,))
@@ -165,7 +175,7 @@ def session_replay(chk, sessions, rng, what):
         return abs(a - b) <= tol * max(1.0, abs(a), abs(b))
     for ses in sessions:
         layout = rng.choice(["scalar", "time", "time_lat", "flat"])
-        kind = rng.choice(["1d", "1d", "2d"])
+        kind = rng.choice(["1d", "1d", "2d", "2dnu"] if what == "moments" else ["1d", "1d", "2d"])   # (ties: see drive_C04)
         scale = rng.choice([1.0, 0.125])
         line = {"f": ses["f"], "e": ses["e"], "nan": ses["nan"]}
         line3 = {"f": ses["f"], "e": [3 * v for v in ses["e"]], "nan": ses["nan"]}
